@@ -5,6 +5,8 @@ import (
 	"context"
 	"errors"
 	"fmt"
+	"github.com/cloudwego/eino/components/retriever"
+	rutils "github.com/cloudwego/eino/flow/retriever/utils"
 	"io"
 	"sort"
 	"strings"
@@ -249,6 +251,24 @@ func (t *recTool) InvokableRun(ctx context.Context, args string, opts ...tool.Op
 	return t.name + "(" + args + ")", nil
 }
 
+// fakeRetriever is a sub-component run by flow/retriever/utils.ConcurrentRetrieveWithCallback.
+type fakeRetriever struct {
+	typ    string
+	yield  bool
+	panics bool
+}
+
+func (f *fakeRetriever) GetType() string { return f.typ }
+func (f *fakeRetriever) Retrieve(ctx context.Context, query string, opts ...retriever.Option) ([]*schema.Document, error) {
+	if f.yield {
+		vsched.Yield()
+	}
+	if f.panics {
+		panic("retriever-panic")
+	}
+	return []*schema.Document{}, nil
+}
+
 // unit describes an execution unit and the (start payload, end payload) it must report.
 type unit struct {
 	name       string
@@ -382,6 +402,36 @@ func (sp *spec) build() (func(), func(x *vsched.Exec) (string, error)) {
 				runErr = fmt.Errorf("expected an interrupt, got %v", e)
 			}
 			result = "<interrupted>"
+		case "retrievers":
+			// a flow helper that runs sub-components concurrently with their own callbacks (flow/retriever/utils): two
+			// sub-retrievers inside node rt, one of them panics. Each is an execution unit: one start, one end-type event,
+			// under its own run info; the enclosing node gets exactly its own pair
+			g := compose.NewGraph[gprog.Val, gprog.Val]()
+			g.AddLambdaNode("rt", compose.InvokableLambda(func(ctx context.Context, in gprog.Val) (gprog.Val, error) {
+				tasks := []*rutils.RetrieveTask{
+					{Name: "good", Retriever: &fakeRetriever{typ: "Good", yield: sp.yields}, Query: "q1"},
+					{Name: "bad", Retriever: &fakeRetriever{typ: "Bad", yield: sp.yields, panics: true}, Query: "q2"},
+				}
+				rutils.ConcurrentRetrieveWithCallback(ctx, tasks)
+				return gprog.NodeFn("rt", in), nil
+			}), compose.WithNodeName("rt"))
+			g.AddEdge(compose.START, "rt")
+			g.AddEdge("rt", compose.END)
+			out := gprog.NodeFn("rt", input)
+			units = append(units, unit{name: "rt", start: in, end: gprog.Canon(out), leaf: "rt"})
+			units = append(units, unit{name: "GoodRetriever", start: "q1", end: "[]", leaf: "GoodRetriever"})
+			units = append(units, unit{name: "BadRetriever", start: "q2", fails: true, leaf: "BadRetriever"})
+			units = append(units, unit{name: "G0", start: in, end: gprog.Canon(out)})
+			if sp.desig == "leaves" {
+				// a handler designated to the node applies to the node and (context inheritance) the units inside it
+				designate("Drt", "rt", func(u unit) bool { return u.name == "rt" || u.name == "GoodRetriever" || u.name == "BadRetriever" })
+			}
+			r, err := g.Compile(ctx, compose.WithGraphName("G0"))
+			if err != nil {
+				runErr = err
+				return
+			}
+			result, runErr = exec(ctx, r, sp.call, opts)
 		case "start-end", "before-first", "start-branch-fails":
 			// runs that leave the run loop inside their FIRST step: START wired to END, an interrupt before the only
 			// node, a failing branch on START. The graph is a unit like any other: one start, one end-type event
@@ -742,7 +792,7 @@ func main() {
 	if !quick {
 		bounds = []int{0, 1, 2, 3}
 	}
-	shapes := []string{"fan2", "nested", "tools", "interrupt", "tools-unknown", "sharedlambda", "start-end", "before-first", "start-branch-fails", "fan3"}
+	shapes := []string{"fan2", "nested", "tools", "interrupt", "tools-unknown", "sharedlambda", "start-end", "before-first", "start-branch-fails", "retrievers", "fan3"}
 	for _, shape := range shapes {
 		desigs := []string{"", "leaves"}
 		if shape == "nested" {
@@ -776,7 +826,7 @@ func main() {
 									if firstStep && desig != "" && shape == "start-end" {
 										continue // no node to designate
 									}
-									if quick && (shape == "tools-unknown" || shape == "sharedlambda" || firstStep) && !(undes <= 1 && !raw && mod == "drain") {
+									if quick && (shape == "tools-unknown" || shape == "sharedlambda" || shape == "retrievers" || firstStep) && !(undes <= 1 && !raw && mod == "drain") {
 										continue
 									}
 									if quick && shape == "fan3" && !(undes == 3 && separate && desig == "leaves") {
